@@ -429,9 +429,36 @@ class HeapInterp:
             pc2 = pc | prov(cond)
             if fr.loop_if_depth:
                 fr.loop_if_depth[-1] += 1
+            # `<expr> != 0` (also as an operand of an `and`) for an expression that is not a plain name: the same expression is
+            # non-zero inside the body
+            proven = set()
+            for t_ in (st.test.values if isinstance(st.test, ast.BoolOp) and isinstance(st.test.op, ast.And) else [st.test]):
+                if isinstance(t_, ast.Compare) and len(t_.ops) == 1 and isinstance(t_.ops[0], ast.NotEq) and isinstance(t_.comparators[0], ast.Constant) \
+                        and t_.comparators[0].value == 0 and not isinstance(t_.left, (ast.Name, ast.NamedExpr)):
+                    root_ = t_.left
+                    while isinstance(root_, (ast.Subscript, ast.Attribute, ast.Call)):
+                        root_ = root_.func if isinstance(root_, ast.Call) else root_.value
+                    base_ = root_.id if isinstance(root_, ast.Name) else None
+                    # ... unless the body changes what the expression reads from
+                    changed_ = base_ is None or any(
+                        (isinstance(y, ast.Name) and y.id == base_ and isinstance(y.ctx, (ast.Store, ast.Del))) or
+                        (isinstance(y, ast.Call) and isinstance(y.func, ast.Attribute) and isinstance(y.func.value, ast.Name) and y.func.value.id == base_
+                         and y.func.attr in ("pop", "append", "extend", "insert", "remove", "clear", "sort", "reverse", "popleft", "appendleft", "update")) or
+                        (isinstance(y, (ast.Subscript,)) and isinstance(y.ctx, (ast.Store, ast.Del)) and isinstance(y.value, ast.Name) and y.value.id == base_)
+                        for b_ in st.body for y in ast.walk(b_))
+                    if not changed_:
+                        proven.add(norm(t_.left))
+            if proven:
+                if not hasattr(self, "_nonzero_exprs"):
+                    self._nonzero_exprs = []
+                self._nonzero_exprs.append(proven)
             try:
                 self._zero_filter_idiom(st, et, fi)
-                tt = self.block(st.body, et, fr, pc2 | self._branch_labels(env, et))
+                try:
+                    tt = self.block(st.body, et, fr, pc2 | self._branch_labels(env, et))
+                finally:
+                    if proven:
+                        self._nonzero_exprs.pop()
                 tf = self.block(st.orelse, ef, fr, pc2 | self._branch_labels(env, ef))
             finally:
                 if fr.loop_if_depth:
